@@ -47,7 +47,7 @@ ASSUMPTIONS = ["the requested range coincides with the equal partition (binmin=a
                "when run() returns normally every output must agree completely with the model, whether or not a fault was injected; when it fails after an "
                "injected fault (OSError / crash) only prefix-consistency of what is on the simulated disk is required",
                "convergence within the step cap is not required (BUDGET); non-termination of the block/cluster moves is BUDGET"]
-PROBES = ["flatcheck_exact_tie", "start_outside_range", "proposal_outside_range_with_u_zero", "u_just_below_P", "u_just_above_P", "accepted_uphill", "rejected_step",
+PROBES = ["stopped_at_f_equal_threshold", "flatcheck_exact_tie", "start_outside_range", "proposal_outside_range_with_u_zero", "u_just_below_P", "u_just_above_P", "accepted_uphill", "rejected_step",
           "flatcheck_flat", "flatcheck_not_flat", "converged", "step_cap_hit", "hook_assisted", "seam_only", "fs_fault_fired", "crash_fired",
           "restart_into_dirty_dir", "restart_after_crash", "oserror_propagated", "partial_range", "warm_sequence_object", "permutants_api",
           "iteration_ge_3", "aborted_by_move", "same_bin_accept", "multi_bin_visit"]
@@ -79,7 +79,7 @@ def gen_wl_seq(rnd):
 def gen_plan(streams, tier):
     rnd = streams.stream("plan")
     seq = gen_wl_seq(rnd)
-    M = rnd.choice((2, 3, 4, 5, 5, 8, 10))
+    M = rnd.choice((2, 2, 3, 3, 4, 5, 5, 6, 7, 8, 10, 12, 20))
     if rnd.random() < 0.5:
         a, b = 0, M
     else:
@@ -88,6 +88,8 @@ def gen_plan(streams, tier):
     cfg = {"M": M, "a": a, "b": b, "flatchk": rnd.choice((1, 2, 3, 5, 7, 10, 10, 20, 20, 30, 50, 60)),
            "flatcrit": rnd.choice((0.1, 0.2, 0.3, 0.5, 0.5, 0.7, 0.8, 0.9)),
            "c": rnd.choice((0.7, 0.6, 0.4, 0.3, 0.3, 0.2, 0.2, 0.1, 0.07, 0.05))}
+    if rnd.random() < 0.08:
+        cfg["conv_exact_k"] = rnd.choice((1, 2, 2, 3))       # threshold equal to the k-th value of f itself
     frnd = streams.stream("faults")
     fault = {"kind": "none"}
     if frnd.random() < 0.4:
@@ -134,10 +136,24 @@ def corpus():
     mk("eacces_on_dos", "GKEGKEKEGS", full, fault={"kind": "eacces", "file": "DOS.txt"}, restart=True)
     mk("flatness_ties_crit_0.8", "GKEGKEKEGS", {"M": 2, "a": 0, "b": 2, "flatchk": 5, "flatcrit": 0.8, "c": 0.2}, accept_policy="uniform")
     mk("flatness_ties_crit_0.5", "EKEKGKEGSD", {"M": 3, "a": 0, "b": 3, "flatchk": 6, "flatcrit": 0.5, "c": 0.2}, accept_policy="uniform")
+    mk("threshold_equals_f_after_2_roots", "GKEGKEKEGS", {"M": 2, "a": 0, "b": 2, "flatchk": 4, "flatcrit": 0.3, "c": 0.3, "conv_exact_k": 2}, accept_policy="uniform")
     mk("seam_only_mode", "GKEGKEKEGS", full, no_hook=True)
     mk("uniform_policy_many_iterations", "KEKEGG", {"M": 3, "a": 0, "b": 3, "flatchk": 30, "flatcrit": 0.2, "c": 0.05}, accept_policy="uniform",
        move_weights=[1, 1, 0, 0])
     return out
+
+
+def conv_of(cfg):
+    """the convergence threshold handed to the machine: exp(c), or (conv_exact_k) the value f itself
+    takes after k square roots, computed the way numpy users would (np.exp(1) ** 0.5 ** ...)"""
+    k = cfg.get("conv_exact_k")
+    if not k:
+        return math.exp(cfg["c"])
+    import numpy as np
+    f = np.exp(1)
+    for _ in range(k):
+        f = f ** 0.5
+    return float(f)
 
 
 # ------------------------------------------------------------------ reference model
@@ -145,7 +161,8 @@ class Model(object):
     def __init__(self, cfg):
         self.M, self.a, self.b = cfg["M"], cfg["a"], cfg["b"]
         self.flatchk, self.flatcrit = int(cfg["flatchk"]), float(cfg["flatcrit"])
-        self.conv = math.exp(cfg["c"])
+        self.conv = conv_of(cfg)
+        self.pending_tie = False
         self.g = [0.0] * self.M
         self.H = [0] * self.M
         self.f = math.e
@@ -232,7 +249,9 @@ class Model(object):
             self.rows["glog"].append([self.niter] + list(self.g))
             self.iter_f = getattr(self, "iter_f", {})
             self.iter_f[self.niter] = f_iter
-            if self.f > self.conv:
+            if abs(self.f - self.conv) <= 1e-12 * self.f:
+                self.pending_tie = True          # math.sqrt vs **0.5 may differ in the last bit: resolved from the hook's f
+            elif self.f > self.conv:
                 self.iter_headers += 1
             else:
                 self.done = True
@@ -496,6 +515,16 @@ class WLSim(object):
                     self.viol("wrong_bookkeeping", "hlocal", "local histogram at the flat check %r, model %r" % (hf["Hlocal"], info["hlocal"]))
                 if not feq(hf["f"], m.f, 1e-9):
                     self.viol("wrong_f", "f_schedule", "f after the flat check is %r, rule (square root exactly when flat) gives %r" % (hf["f"], m.f))
+            if m.pending_tie:
+                if hf is None:
+                    raise Discard("f equals the threshold to within rounding and no hook record tells the implementation's f")
+                m.f = float(hf["f"])
+                m.done = not (m.f > m.conv)      # the statement: stop when f is at most the threshold
+                if not m.done:
+                    m.iter_headers += 1
+                else:
+                    self.ctx.probe("stopped_at_f_equal_threshold")
+                m.pending_tie = False
             if info is None and hf is not None:
                 self.viol("wrong_flatness", "flat_schedule", "a flat check ran at step %d, not a multiple of the period %d" % (m.steps, m.flatchk))
             if info is not None and self.use_hook and hf is None and not final:
@@ -551,7 +580,9 @@ class WLSim(object):
             if len(d) != len(w):
                 self.viol("log_disagrees", name + "_row_shape", "%s row %d has %d columns, expected %d (%r)" % (name, i + 1, len(d), len(w), [t for t, _ in d]))
             for j, ((tok, v), x) in enumerate(zip(d, w)):
-                tol = 0.0 if (exact or j == 0) else tok_tol(tok) + 1e-9 * abs(x)
+                if j == 0:
+                    continue                      # running check / iteration counter: numbering is not part of the statement
+                tol = 0.0 if exact else tok_tol(tok) + 1e-9 * abs(x)
                 if abs(v - x) > tol:
                     self.viol("log_disagrees", name + "_value", "%s row %d column %d reads %s, bookkeeping gives %r" % (name, i + 1, j, tok, x))
         setattr(self, "_cmp_" + name, len(disk))
@@ -750,14 +781,14 @@ def execute(plan, ctx):
             if first_failed:
                 ctx.probe("restart_after_crash")
         kw = dict(nbins=b - a, binmin=a / float(M), binmax=b / float(M), flatchk=cfg["flatchk"], flatcrit=cfg["flatcrit"],
-                  convergence=math.exp(cfg["c"]))
+                  convergence=conv_of(cfg))
         outcome, ret, err = "returned", None, None
         try:
             if plan["input"] == "permutants_api":
                 ctx.probe("permutants_api")
                 P = permmod.SequencePermutants(plan["seq"])
                 P.initializeWangLandauParameters(OUTDIR, set(plan.get("frozen", [])), b - a, a / float(M), b / float(M),
-                                                 cfg["flatchk"], cfg["flatcrit"], math.exp(cfg["c"]))
+                                                 cfg["flatchk"], cfg["flatcrit"], conv_of(cfg))
                 machine = P.WLM
             else:
                 seq_in = plan["seq"]
@@ -844,7 +875,7 @@ def shrink(plan, res):
     for fc in (1, 2, 5):
         if cfg["flatchk"] > fc:
             c = copy.deepcopy(plan); c["cfg"]["flatchk"] = fc; yield c
-    if cfg["c"] < 0.6:
+    if cfg["c"] < 0.6 and not cfg.get("conv_exact_k"):
         c = copy.deepcopy(plan); c["cfg"]["c"] = 0.6; yield c
     if plan.get("move_weights") != [1, 1, 0, 0]:
         c = copy.deepcopy(plan); c["move_weights"] = [1, 1, 0, 0]; yield c
